@@ -11,7 +11,7 @@ THEOREMS = ['Tbox.C20.C20_weekly_earliest', 'Tbox.C20.C20_weekly_empty_mask', 'T
             'Tbox.C20.C20_stale_target_counterexample', 'Tbox.C20.C20_oneshot_once', 'Tbox.C20.C20_oneshot_expiry_idle', 'Tbox.C20.C20_disabled_never_fires',
             'Tbox.C20.C20_fired_was_enabled', 'Tbox.C20.C20_watch_alive', 'Tbox.C20.C20_destroy_unpatched_counterexample',
             'Tbox.C20.C20_world_callbacks_enabled', 'Tbox.C20.C20_once_per_instant', 'Tbox.C20.C20_refresh_in_early_callback_fixed', 'Tbox.C20.C20_world_targets_increase',
-            'Tbox.C20.C20_refresh_in_early_callback_counterexample', 'Tbox.C20.C20_cron_earliest', 'Tbox.C20.C20_cron_none',
+            'Tbox.C20.C20_refresh_in_early_callback_counterexample', 'Tbox.C20.C20_cron_earliest', 'Tbox.C20.C20_cron_none', 'Tbox.C20.C20_cron_horizon',
             'Tbox.C20.wExec_inv']
 SOURCES = ['modules/alarm/alarm.cpp', 'modules/alarm/weekly_alarm.cpp', 'modules/alarm/oneshot_alarm.cpp',
            'modules/alarm/workday_alarm.cpp', 'modules/alarm/workday_calendar.cpp', 'modules/alarm/cron_alarm.cpp',
@@ -38,9 +38,8 @@ ASSUMPTIONS = ['instants are at least 368 days before the end of the uint32 epoc
                'uint32 sums of the code wrap; the model wraps identically (checked by correspondence) but the theorems exclude it',
                'local time start + offset >= 0 (no uint32 wrap below 1970 for negative time-zone offsets)',
                'an alarm is not destroyed from inside its own callback (the code asserts against it)',
-               'cron: generated expressions never restrict day-of-month, month and weekday all at once and keep a day <= 28 reachable when the month is '
-               'restricted (ccronexpr gives up, returning (time_t)-1, when the month has to advance more than 4 years after the start: CRON_MAX_YEARS_DIFF); '
-               't at least 5 years before the end of the uint32 range']
+               'cron: the reference reproduces ccronexpr\'s year horizon (CRON_MAX_YEARS_DIFF: the search gives up when a jump to the next allowed month '
+               'lands in a calendar year more than 4 after the start year) — beyond it "no instant" is the specified answer of both sides']
 RULE = ('(1) pure: calculateNextLocalTimeSec of weekly/oneshot/workday probes on generated (seconds-of-day, mask, calendar, t) with t at day/week '
         'boundaries +-2 s over the whole uint32 range; (2) histories of up to 4 alarms on the real loop: new/init/tz/enable/disable/refresh/cleanup, '
         'calendar updates, destruction, callback scripts (refresh/disable/enable of any alarm, destroy another alarm, calendar updates from inside callbacks), '
@@ -323,10 +322,6 @@ def gen_cron(rng):
     for _ in range(rng.choice([3, 6, 10])):
         sec = cron_field(rng, 0, 59, 0.2); mi = cron_field(rng, 0, 59, 0.3); hr = cron_field(rng, 0, 23, 0.4)
         dom = cron_field(rng, 1, 31, 0.5); mon = cron_field(rng, 1, 12, 0.5); dow = cron_field(rng, 0, 7, 0.5)
-        # stay inside what ccronexpr can reach (it gives up when the month must advance more than 4 years after the start):
-        # never restrict all three of dom/mon/dow, and with a restricted month keep a day-of-month <= 28 reachable
-        if dom != '*' and mon != '*' and dow != '*': dow = '*'
-        if dom != '*' and mon != '*': dom = dom + ',' + str(rng.randint(1, 28))
         r = rng.random()
         if r < 0.55:
             y = rng.randint(1970, 2104); m = rng.randint(1, 12)
@@ -335,9 +330,50 @@ def gen_cron(rng):
             first = days_from_civil(y, m, 1) * D
             t = first + rng.choice([-2, -1, 0, 1, -D, -D - 1, -D + 1, D - 1, rng.randrange(-3 * D, 3 * D)])
         elif r < 0.6: t = rng.choice([0, 1, 59, 60, 3599, 3600, D - 1, D])
-        else: t = rng.randrange(0, U32 - 5 * 366 * D)
-        t = max(0, min(t, U32 - 5 * 366 * D))
-        ops.append('cron %s %s %s %s %s %s %d' % (sec, mi, hr, dom, mon, dow, t))
+        else: t = rng.randrange(0, U32)
+        t = max(0, min(t, U32 - 1))
+        ops.append('%s %s %s %s %s %s %s %d' % (rng.choice(['cron', 'cron', 'cron', 'cronen']), sec, mi, hr, dom, mon, dow, t))
+    return ops
+
+
+def gen_cron_sparse(rng):
+    """directed families around ccronexpr's year horizon (tm_year - start year > 4 at a jump to the next allowed month => no instant)"""
+    ops = []
+    hms = lambda: rng.choice(['0 0 0', '0 0 0', '59 59 23', '%d %d %d' % (rng.randrange(60), rng.randrange(60), rng.randrange(24)), '*/20 30 12'])
+    fam = rng.randrange(4)
+    for _ in range(rng.choice([4, 8])):
+        if fam == 0:
+            # Feb 29 from every position relative to the leap years, incl. 2096 -> 2104 across the non-leap 2100
+            y = rng.choice([1971, 1972, 1973, 1996, 2000, 2001, 2023, 2024, 2025, 2026, 2027, 2028, 2092, 2095, 2096, 2097, 2099, 2100, 2101, 2103, 2104, rng.randint(1970, 2105)])
+            leap = (y % 4 == 0 and y % 100 != 0) or y % 400 == 0
+            base = days_from_civil(y, 2, 29 if leap else 28) * D
+            t = rng.choice([base - 1, base, base + 1, base + D - 1, base + D, days_from_civil(y, 1, 1) * D, days_from_civil(y, 12, 31) * D + D - 1,
+                            days_from_civil(y, rng.randint(1, 12), rng.randint(1, 28)) * D + rng.randrange(D)])
+            dow = rng.choice(['*', '*', '*', str(rng.randrange(8)), '1-5'])
+            expr = '%s 29 2 %s' % (hms(), dow)
+        elif fam == 1:
+            # day 31 (30) in months that do not have it, alone or mixed with months that do
+            dom = rng.choice(['31', '31', '30,31', '30', '29-31', '31,1'])
+            mon = rng.choice(['4', '6', '9', '11', '4,6,9,11', '2', '2,4', '4,5', '2,12', '11,12', '2-4', '*/5'])
+            y = rng.randint(1970, 2104); m = rng.randint(1, 12)
+            t = days_from_civil(y, m, rng.choice([1, 28, 29 if m != 2 else 28, 30 if m != 2 else 28])) * D + rng.choice([0, 1, D - 1, rng.randrange(D)])
+            expr = '%s %s %s %s' % (hms(), dom, mon, rng.choice(['*', '*', str(rng.randrange(7))]))
+        elif fam == 2:
+            # day-of-month + month + weekday all restricted: sparse matches 1..11 years apart
+            dom = rng.choice(['1', '13', '25', '31', '29', '1,15', str(rng.randint(1, 31))])
+            mon = rng.choice(['1', '2', '12', '7', '2,8', str(rng.randint(1, 12))])
+            dow = rng.choice([str(rng.randrange(8)), str(rng.randrange(8)), '1-2', '6,0', '5'])
+            y = rng.randint(1970, 2104)
+            t = days_from_civil(y, rng.randint(1, 12), rng.randint(1, 28)) * D + rng.choice([0, D - 1, rng.randrange(D)])
+            expr = '%s %s %s %s' % (hms(), dom, mon, dow)
+        else:
+            # December/January neighbours and the last second of a year (the start year moves when t itself matches)
+            y = rng.randint(1970, 2104)
+            t = days_from_civil(y, 12, 31) * D + rng.choice([D - 1, D - 2, D, 0])
+            expr = rng.choice(['59 59 23 31 12 *', '59 59 23 31 12 %d' % rng.randrange(7), '0 0 0 1 1 %d' % rng.randrange(7), '59 59 23 29 2 *',
+                               '0 0 0 29 2 *', '59 59 23 31 12,1 %d' % rng.randrange(7), '59 59 23 * 12 *'])
+        t = max(0, min(t, U32 - 1))
+        ops.append('%s %s %d' % (rng.choice(['cron', 'cron', 'cronen']), expr, t))
     return ops
 
 
@@ -359,6 +395,12 @@ def gen(rng, tier):
            'cron * * * * * 8 5', 'cron 5-3 * * * * * 5', 'cron */0 * * * * * 5', 'cron 0 0 0 * * 7 1700000000', 'cron 0 0 0 13 * 5 1700000000',
            'cron 0 0 0 29 2 * 1700000000', 'cron 50/4 * * * * * 1700000000', 'cron 59 59 23 31 12 * 1700000000', 'cron 0 0 0 1 1 * 4102444799',
            'cron 0 0 12 1,15 * 1-5 951782400']
+    # ccronexpr's year horizon: exactly 4 calendar years ahead is still found, 2096 -> 2104 is not, an impossible date is not;
+    # enable() of a real CronAlarm fails (stays idle) when there is no next instant
+    yield ['cron 0 0 0 29 2 * 1709164800', 'cron 0 0 0 29 2 * 1709164799', 'cron 0 0 0 29 2 * 1709251200', 'cron 0 0 0 29 2 * 3981398400',
+           'cron 0 0 0 29 2 * 4107542400', 'cron 0 0 0 30 2 * 1700000000', 'cron 0 0 0 31 4,6,9,11 * 1700000000', 'cronen 0 0 0 30 2 * 1700000000',
+           'cronen 0 0 0 29 2 * 1709164800', 'cronen 0 0 0 29 2 * 3981398400', 'cron 0 0 0 1 1 1 1700000000', 'cron 0 0 0 1 1 1 1704067200',
+           'cron 59 59 23 31 12 * 1704067199', 'cron 59 59 23 29 2 * 1709251199']
     # a callback that refreshes its own alarm on an early wake-up (monotonic ahead of wall): the served instant must not be armed again
     yield ['new 0 wk rf0', 'init 0 100 1111111 1', 'tz 0 0', 'wall 86400000000', 'en 0', 'mono 5', 'adv 99995', 'adv 5', 'adv 86400000']
     # destruction: enabled workday alarm, and one whose enable() failed, then a calendar update
@@ -372,11 +414,13 @@ def gen(rng, tier):
         yield gen_far(rng)
     for _ in range(n // 2):
         yield gen_cron(rng)
+    for _ in range(n // 2):
+        yield gen_cron_sparse(rng)
 
 
 def nontrivial(ops, model_lines):
     tags = ' '.join(l for l in model_lines if l.startswith('B '))
-    keys = ('fire-', 'arm-far', 'rearm-far', 'wk-week', 'wd-week', 'wd-far', 'wd-weeks', 'os-week', 'cron-month', 'cron-year', 'cron-day', 'destroy-subscribed', 'script-run')
+    keys = ('cron-none-year-horizon', 'cron-4-years', 'cron-years', 'cron-enable', 'fire-', 'arm-far', 'rearm-far', 'wk-week', 'wd-week', 'wd-far', 'wd-weeks', 'os-week', 'cron-month', 'cron-year', 'cron-day', 'destroy-subscribed', 'script-run')
     return 1 if any(k in tags for k in keys) else None
 
 
